@@ -87,6 +87,7 @@ def run(ctx):
     judge_bad = 0
     dist = {"tests": {}, "suffixed": 0, "crlf": 0, "with_attrs": 0, "with_delimlike_inputs": 0, "with_wrong_expectations": 0,
             "written": 0, "not_written": 0, "wellformed_expectations": 0, "bytes_total": 0, "clauses_failed": {}}
+    corr_viol = []
     for line in out.split("\n"):
         if not line.strip():
             continue
@@ -112,13 +113,13 @@ def run(ctx):
             compared += 1
             if kv.get(k) != "ok":
                 corr[k] += 1
-                ctx.violation("corr", "Lean model and crates/cli/src/test.rs disagree (%s): %s" % (k, kv.get(k)),
+                corr_viol.append(("corr", "Lean model and crates/cli/src/test.rs disagree (%s): %s" % (k, kv.get(k)),
                               {"case": cid, "spec": specs.get(cid, ""), "result": kv,
                                "correspondence": {"parse0": "TsVerif.C20.parseFile vs parse_tests (original file)",
                                                   "parse1": "TsVerif.C20.parseFile vs parse_tests (file after update)",
                                                   "upd1": "TsVerif.C20.updateFile vs run_tests_at_path(update) (first run)",
                                                   "upd2": "TsVerif.C20.updateFile vs run_tests_at_path(update) (second run)"}[k]},
-                              fingerprint={"corr": k}, found_input=False)
+                              {"corr": k}, False))
         if kv["judge"] != "ok":
             judge_bad += 1
             clauses = kv["judge"].split(":", 1)[1].split(",")
@@ -133,6 +134,9 @@ def run(ctx):
                               {"case": cid, "spec": specs.get(cid, ""), "clause": c, "all_failed_clauses": clauses,
                                "result": {k: v for k, v in kv.items() if k != "model1"}},
                               fingerprint=fp)
+    # concrete judge failures were registered first (they carry a failing input); then the disagreements
+    for kind, what, payload, fp, found in corr_viol[:10]:
+        ctx.violation(kind, what, payload, fingerprint=fp, found_input=found)
     total_bad = sum(corr.values())
     ctx.oblige("corr:parseFile=parse_tests", corr["parse0"] + corr["parse1"] == 0, "%d disagreements" % (corr["parse0"] + corr["parse1"]))
     ctx.oblige("corr:updateFile=run_tests_at_path(update)", corr["upd1"] + corr["upd2"] == 0, "%d disagreements" % (corr["upd1"] + corr["upd2"]))
